@@ -11,6 +11,9 @@ DEC = "rust_decimal + - * / checked_* round_dp cmp -> verif_dec (exact on mantis
 MAP = "std HashMap -> verif_map (capacity 4)"
 MAPND = "std HashMap -> verif_map (capacity 4, iteration order a solver variable)"
 BUMP = "bumpalo::Bump::alloc_layout -> global allocator"
+HEAP = "std BinaryHeap -> verif_heap (bag of capacity 2; pop returns ANY greatest element, ties a solver variable)"
+SORT = ("core::slice::sort::unstable::sort -> identity (every map of the harness is built in name order, so the slot order the map "
+        "model iterates in is the sorted order; the oracle does not depend on the visiting order)")
 
 PROPERTIES = {}
 
@@ -381,13 +384,21 @@ prop("C10", title="Converted reports convert every amount or fail",
                 "strategies of `balance -X` funnel every holding through: for every amount over {X, Y, T} (symbolic presence and 6-bit signed "
                 "values per commodity), target T, and symbolic availability of each rate, the call fails iff a needed rate is missing, "
                 "otherwise returns exactly the sum of value x rate plus the untouched T amount, with no unconverted commodity left. The "
-                "price table for (T, date) is pre-computed in the repository cache: the search that fills it, Ledger::balance's two strategy "
-                "branches, rounding to T's precision and the CLI flags are outside (Ledger::balance did not fit the solver: DESIGN 7).",
+                "price table for (T, date) is pre-computed in the repository cache (quick tier); the thorough tier runs two conversions at two "
+                "symbolic dates through the real cache and search (a table cached for one date never answers for another). Ledger::balance's "
+                "two strategy branches, rounding to T's precision and the CLI flags are outside (Ledger::balance did not fit the solver: DESIGN 7).",
      level_note="Trusted: Kani/CBMC; verif_map (capacity 3), verif_dec; 6-bit values so that the products of code and reference can be matched.")
 H("C10", file="core/price_db.rs", name="c10_convert_amount", timeout=1800, expect_s=330, map_cap=3,
   functions=["price_db::convert_amount", "PriceRepository::convert_single", "Amount::iter", "Amount += SingleAmount"],
   bound="holdings in X, Y, T each present or not, 6-bit signed; rates X->T, Y->T each available or not (8-bit positive); unwind 6",
   models=[DEC, MAP, FMT, BUMP], oracle="Err(RateNotFound) iff a held commodity has no rate; Ok => T total == sum value x rate + T holding, nothing else left")
+
+H("C10", file="core/price_db.rs", name="c10_convert_two_dates", tier="thorough", timeout=3000, expect_s=980, map_cap=2, mem_gb=32,
+  env={"VERIF_HEAP_CAP": 2}, loops={"compute_price_table": {"1": 4, "0": 3}},
+  functions=["PriceRepository::convert_single (rate-table cache)", "NaivePriceRepository::compute_price_table"],
+  bound="one pair with two dated prices in a 4-day window; the same holding converted at two symbolic days in either order; 6-bit values",
+  models=[DEC, MAP, HEAP, SORT, FMT, BUMP],
+  oracle="each conversion uses the price as of its own day (or fails when none exists yet): a cached table never answers for another date")
 
 H("C14", file="core/adaptor.rs", name="c14_parsed_context_4", timeout=600, expect_s=15,
   functions=["ParsedContext::compute_line_start", "ParsedContext::as_str", "ParsedSpan::resolve"],
@@ -400,9 +411,6 @@ H("C14", file="core/adaptor.rs", name="c14_parsed_context_8", timeout=600, expec
 
 
 # --------------------------------------------------------------------------- C09
-HEAP = "std BinaryHeap -> verif_heap (bag of capacity 2; pop returns ANY greatest element, ties a solver variable)"
-SORT = ("core::slice::sort::unstable::sort -> identity (every map of the harness is built in name order, so the slot order the map "
-        "model iterates in is the sorted order; the oracle does not depend on the visiting order)")
 PT_LOOPS = {"compute_price_table": {"1": 6, "0": 3}, "binary_search_by": {"0": 2}}
 prop("C09", title="Commodity conversion uses the right price",
      level_text="Bounded model checking of the price store and the rate search, below the date sort of build_naive: (1) insert_price "
